@@ -19,7 +19,8 @@ RULE = (
     "(cse {T,F}; python_modules {default, ('numpy','math')}; extra_validation {F,T}; max_dt_sec {0.1,0.05,1.0}; "
     "innovation_filtering {None,5.0,0.5}) set_params(field=v) must change exactly that field; every pair of fields set "
     "together; set_params(**get_params()) and sklearn.base.clone preserve every parameter; unknown names (3 spellings) "
-    "are refused and change nothing. Fit half: every (estimator, training matrix) pair of the tier's menu (matrices of 4-6 "
+    "are refused and change nothing (unknown = misspellings of every real parameter and every other attribute name the estimator "
+    "object has, before and after its first use; the instance dictionary must be untouched). Fit half: every (estimator, training matrix) pair of the tier's menu (matrices of 4-6 "
     "rows over the C16 alphabet; quick 12 pairs, thorough 48) is fitted; outcome must be MinimizationFailure or an "
     "estimator with the identical model, sensor models, calibration and config whose noise maps name exactly the original "
     "controls / sensors / readings with finite magnitudes and strictly positive process noise. distinct = (estimator, "
@@ -147,18 +148,43 @@ def eval_params(case):
                 fail("clone", f"clone differs in {diffs}")
         except Exception as e:
             fail("clone-raises", f"clone raised {e!r}")
-        for bad in ("innovation_filter", "Config", "max_dt", "process_noises"):
-            snap = dict(est.get_params())
-            try:
-                est.set_params(**{bad: 1.0})
-                fail("unknown-param-accepted", f"set_params({bad}=1.0) accepted")
-            except (ModelConstructionError, ValueError, TypeError):
-                pass
-            except Exception as e:
-                fail("unknown-param-wrong-error", f"set_params({bad}=1.0) raised {type(e).__name__}")
-            n += 1
-            if same_params(snap, est.get_params(), ""):
-                fail("unknown-param-side-effect", f"refused set_params({bad}) still changed parameters")
+        # unknown names: misspellings of the real parameters AND every other name the estimator object answers to (methods,
+        # class attributes, attributes that appear once the estimator has been used) - none of them is a parameter
+        known = set(est.get_params()) | {f.name for f in dataclasses.fields(est.config)}
+        for used in (False, True):
+            if used:
+                try:
+                    width = len(d["control"]) + sum(len(rs) for _, rs in d["sensors"])
+                    est.transform(np.array([[0.25 * (i + j) for j in range(width)] for i in range(3)]))
+                except Exception as e:
+                    fail("transform-raises", f"transform raised {e!r}"[:200])
+            attr_names = sorted(a for a in set(dir(est)) | set(vars(est)) if not a.startswith("__") and a not in known)
+            spellings = ["innovation_filter", "Config", "max_dt", "process_noises"] + [k_ + "_" for k_ in sorted(known)] + \
+                [k_.upper() for k_ in sorted(known)] + [k_[:-1] for k_ in sorted(known)]
+            for bad in spellings + attr_names:
+                if bad in known:
+                    continue
+                snap = dict(est.get_params())
+                inst0 = dict(vars(est))  # the instance dictionary is where an accepted name would land
+                try:
+                    est.set_params(**{bad: 1.0})
+                    fail("unknown-param-accepted", f"set_params({bad}=1.0) accepted ({'after transform' if used else 'fresh estimator'})")
+                except (ModelConstructionError, ValueError, TypeError):
+                    pass
+                except Exception as e:
+                    fail("unknown-param-wrong-error", f"set_params({bad}=1.0) raised {type(e).__name__}")
+                inst1 = vars(est)
+                changed = [a for a in set(inst0) | set(inst1) if (a in inst0) != (a in inst1) or (a in inst0 and inst0[a] is not inst1[a])]
+                if changed:
+                    fail("unknown-param-side-effect", f"set_params({bad}=1.0) changed the estimator's attributes {sorted(changed)}")
+                    for a in changed:  # put things back so the remaining probes see a working object
+                        if a in inst0:
+                            inst1[a] = inst0[a]
+                        else:
+                            del inst1[a]
+                n += 1
+                if same_params(snap, est.get_params(), ""):
+                    fail("unknown-param-side-effect", f"refused set_params({bad}) still changed parameters")
     return {"n": n, "fails": fails, "sigs": [f"{tag}:{i}" for i in range(n)], "outcomes": ["params-checked"],
             "sample": {"kind": "params", "estimator": tag, "set_params_combinations": len(combos)}}
 
